@@ -112,7 +112,7 @@ void harness(void)
         static uint8 lo[772];
         int   i;
         H4V_ASSERT(lid != FAIL && GRgetlutinfo(lid, &nc, &nt, &il, &ne) == SUCCEED, "C09.S1.lutinfo");
-        H4V_ASSERT(nc == 3 && nt == DFNT_UINT8 && ne == 256, "C09.S1.lutinfo.values");
+        H4V_ASSERT(nc == 3 && (nt == DFNT_UINT8 || nt == DFNT_UCHAR8) && ne == 256, "C09.S1.lutinfo.values");
         for (i = 0; i < 772; i++) lo[i] = 0x6B;
         H4V_ASSERT(GRreadlut(lid, lo) == SUCCEED, "C09.S1.readlut");
         for (i = 0; i < 768; i++) H4V_ASSERT(lo[i] == lut[i], "C09.S1.lut: palette entry read differs from the entry written");
